@@ -468,7 +468,9 @@ def check_law(A, B, e, law, svA, svB, report, tolc=3e-6):
                 if not rel(sa, sb, 5e-5, 1e-7):
                     report("obs_stdev", "stdev of adjusted %s: %r -> %r" % (key, sa, sb))
     # --- orientations
-    if law["obs"] != "rotdir":
+    if law["obs"] in ("superset", "any"):
+        pass
+    elif law["obs"] != "rotdir":
         for s_, v in A["ori"].items():
             w = B["ori"].get(s_)
             if w is None:
